@@ -71,6 +71,7 @@ func vC09Update(text string, id string) {
 
 // VerifC09Bytes: every byte string of length 0..len (all 256 byte values per position) as a condition.
 func VerifC09Bytes() {
+	vRepeat = false
 	text := nd.StringN("text", nd.Choice("len", nd.Param("len", 3)+1))
 	vC09Condition(text, "C09-bytes")
 	nd.Reach("end")
@@ -78,6 +79,7 @@ func VerifC09Bytes() {
 
 // VerifC09UpdateBytes: the same for the update grammar.
 func VerifC09UpdateBytes() {
+	vRepeat = false
 	text := nd.StringN("text", nd.Choice("len", nd.Param("len", 3)+1))
 	vC09Update(text, "C09-ubytes")
 	nd.Reach("end")
